@@ -16,6 +16,7 @@ site `acc.f = rhs` inside the fold is extracted together with its path condition
           condition than acc.credential_policy < CredentialType::Mfa (and the "only raise" comparison).
 Fields outside the table (search limits, new fields) are not judged. A table field that disappears, or has no update
 site, fails closed.
+ K5-policy-fields  each AccountPolicy field is parsed from its own attribute; K5-policy-source  the fold's input derives from memberof and is not shortened.
 Not decided: that callers pass every group's policy into the iterator; defaults chosen in From<&Entry>.
 """
 from .lib.hir import *
